@@ -84,10 +84,24 @@ def ret_is_some_fns(ctx):
     return ctx.memo("ret_is_some", build)
 
 
-def left_test_edges(ctx, body, ignore_debug=True):
-    """{(bb, succ): N|S} for switch edges that decide whether the self S is split.
-    Tests that exist only under debug_assert!/cfg!(debug_assertions) are ignored when ignore_debug."""
+def option_test_edges(ctx, body, is_target, ignore_debug=True, accessors=None):
+    """{(bb, succ): N|S} for switch edges that decide whether an Option-typed place (selected by `is_target(path)`) is Some (S) or None (N).
+    Recognised tests: discriminant(X); discriminant(X.as_ref()/as_mut()); discriminant(Try::branch(X or X.as_ref()/as_mut())) — the `?`
+    operator; X.is_some()/is_none() (also negated); griddle accessors returning is_some()/is_none() of their receiver's X."""
     out = {}
+
+    def via_as_ref(op):
+        """operand is X itself, or the result of as_ref/as_mut on X: returns True if so"""
+        p = body.op_path(op) if op["k"] in ("copy", "move") else None
+        if p is not None and is_target(p):
+            return True
+        d = body.source_def(op)
+        if d is not None and d[1] == "call":
+            c = ctx.call_at(body, d[0].bb)
+            if c.name in (OPT + "as_ref", OPT + "as_mut", OPT + "as_deref", OPT + "as_deref_mut") and c.arg_path(0) is not None and is_target(c.arg_path(0)):
+                return True
+        return False
+
     for bb in body.reachable():
         t = body.term(bb)
         if t["k"] != "switch":
@@ -100,44 +114,65 @@ def left_test_edges(ctx, body, ignore_debug=True):
             continue
         kind = None
         if d[1] == "assign" and d[2]["rv"]["k"] == "discr":
-            p = body.expand(d[2]["rv"]["place"])
-            if is_self_left(ctx, body, p):
+            pl = d[2]["rv"]["place"]
+            p = body.expand(pl)
+            if is_target(p):
                 kind = "discr"
+            elif not pl["proj"]:
+                # discriminant of a local: result of as_ref/as_mut on X, or of Try::branch on such
+                dd = body.unique_def(pl["local"])
+                if dd is not None and dd[1] == "call":
+                    c = ctx.call_at(body, dd[0].bb)
+                    if c.name in (OPT + "as_ref", OPT + "as_mut") and c.arg_path(0) is not None and is_target(c.arg_path(0)):
+                        kind = "discr"
+                    elif (c.name or "").endswith("Try::branch") and c.args and via_as_ref(c.args[0]):
+                        kind = "branch"
         elif d[1] == "call":
             c = ctx.call_at(body, d[0].bb)
             if ignore_debug and in_macro(c.t["span"], "debug_assert"):
                 continue
-            if c.name in (OPT + "is_some", OPT + "is_none") and is_self_left(ctx, body, c.arg_path(0)):
+            if c.name in (OPT + "is_some", OPT + "is_none") and c.args and via_as_ref(c.args[0]):
                 kind = "is_some" if c.name == OPT + "is_some" else "is_none"
-            else:
+            elif accessors:
                 lc = c.local_callee()
-                if lc is not None and lc.path in ret_is_some_fns(ctx) and is_self_s(ctx, body, c.arg_path(0)):
-                    kind = "is_some" if ret_is_some_fns(ctx)[lc.path] else "is_none"
+                if lc is not None and lc.path in accessors and accessors.get("__recv__", lambda q: False)(c.arg_path(0)):
+                    kind = "is_some" if accessors[lc.path] else "is_none"
         elif d[1] == "assign" and d[2]["rv"]["k"] == "unop" and d[2]["rv"]["op"] == "Not":
             d2 = body.source_def(d[2]["rv"]["a"])
             if d2 is not None and d2[1] == "call":
                 c = ctx.call_at(body, d2[0].bb)
-                if c.name in (OPT + "is_some", OPT + "is_none") and is_self_left(ctx, body, c.arg_path(0)):
+                if c.name in (OPT + "is_some", OPT + "is_none") and c.args and via_as_ref(c.args[0]):
                     kind = "is_none" if c.name == OPT + "is_some" else "is_some"
+                elif accessors:
+                    lc = c.local_callee()
+                    if lc is not None and lc.path in accessors and accessors.get("__recv__", lambda q: False)(c.arg_path(0)):
+                        kind = "is_none" if accessors[lc.path] else "is_some"
         if kind is None:
             continue
-        # has LEFT been possibly modified between the test's evaluation and the switch?  the test value is a temp in the same
-        # or dominating block; MIR evaluates the discriminant right before the switch, so no.
         for v, tb in t["targets"]:
             if tb == t["otherwise"]:
                 continue
             if kind == "discr":
                 out[(bb, tb)] = S if v == 1 else N
+            elif kind == "branch":
+                out[(bb, tb)] = S if v == 0 else N
             elif kind == "is_some":
                 out[(bb, tb)] = S if v != 0 else N
             else:
                 out[(bb, tb)] = N if v != 0 else S
         ob = t["otherwise"]
         vals = [v for v, _ in t["targets"]]
+        if body.term(ob)["k"] == "unreachable":
+            continue
         if kind == "discr":
             if vals == [1]:
                 out[(bb, ob)] = N
             elif vals == [0]:
+                out[(bb, ob)] = S
+        elif kind == "branch":
+            if vals == [0]:
+                out[(bb, ob)] = N
+            elif vals == [1]:
                 out[(bb, ob)] = S
         elif kind == "is_some":
             if vals == [0]:
@@ -146,6 +181,14 @@ def left_test_edges(ctx, body, ignore_debug=True):
             if vals == [0]:
                 out[(bb, ob)] = N
     return out
+
+
+def left_test_edges(ctx, body, ignore_debug=True):
+    """{(bb, succ): N|S} for switch edges that decide whether the self S is split.
+    Tests that exist only under debug_assert!/cfg!(debug_assertions) are ignored when ignore_debug."""
+    acc = dict(ret_is_some_fns(ctx))
+    acc["__recv__"] = lambda q: is_self_s(ctx, body, q)
+    return option_test_edges(ctx, body, lambda p: is_self_left(ctx, body, p), ignore_debug, acc)
 
 
 class TypeState:
@@ -328,36 +371,188 @@ def installs_left(ctx):
     return ctx.memo("installs_left", build)
 
 
-def movers(ctx):
-    """bodies that move elements OLD -> MAIN: {path: dict(rem=Call, ins=Call, bounded=(loop header bb, trip) or None)}"""
+def cursor_yield_of(ctx, body, bucket_op):
+    """If the raw bucket operand is (the payload of) what CURSOR.next() just yielded — directly or through `?` — return that next() Call."""
+    bp = body.op_path(bucket_op)
+    if bp is None:
+        return None
+    d = body.unique_def(bp.root)
+    hops = 0
+    while d is not None and d[1] == "call" and hops < 3:
+        hops += 1
+        y = ctx.call_at(body, d[0].bb)
+        if y.tname == HBI + "next" and ctx.role(body, y.arg_path(0)) == CURSOR:
+            return y
+        if (y.name or "").endswith("Try::branch") and y.args:
+            q = body.op_path(y.args[0])
+            d = body.unique_def(q.root) if q is not None else None
+            continue
+        return None
+    return None
+
+
+def takers(ctx):
+    """helper functions that take the next not-yet-moved element out of the old table and hand it to their caller:
+    they poll the cursor, remove exactly the yielded bucket from OLD and return the removed value.  {path: dict(body, rem, yield)}"""
     def build():
         out = {}
         for body, c, role, recv in hb_calls(ctx):
-            if c.tname != HBT + "remove" or role != OLD:
+            if c.tname != HBT + "remove" or role != OLD or body.kind == "Closure":
                 continue
-            # result flows into an insertion on MAIN in the same body
-            dest = c.dest["local"]
-            ins = None
-            for c2 in ctx.calls(body):
-                if c2.tname in (HBT + "insert_no_grow", HBT + "insert") and ctx.role(body, c2.arg_path(0)) == MAIN:
-                    vp = body.op_path(c2.args[2]) if len(c2.args) > 2 else None
-                    if vp is not None and vp.root == dest:
-                        ins = c2
-            if ins is None:
+            y = cursor_yield_of(ctx, body, c.args[1])
+            if y is None:
                 continue
-            info = {"rem": c, "ins": ins, "bounded": None, "body": body}
-            for head, blocks in body.loops():
-                if c.loc.bb in blocks:
-                    hc = ctx.call_at(body, head)
-                    # header (or the block right after a goto header) calls Range::next
-                    cand = [ctx.call_at(body, x) for x in blocks]
-                    rn = [x for x in cand if x is not None and x.tname == "core::ops::Range::next"]
-                    if rn:
-                        trip = _range_trip(ctx, body, rn[0])
-                        info["bounded"] = {"head": head, "blocks": blocks, "next": rn[0], "trip": trip}
-                    else:
-                        info["loop"] = {"head": head, "blocks": blocks}
-            out[body.path] = info
+            # the removed value flows to the return value and is not inserted anywhere here
+            flows = False
+            for rb in body.return_blocks():
+                ret_op = {"k": "copy", "place": {"local": 0, "proj": [], "ty": body.locals[0]["ty"]}}
+                s, _ = body.slice_back(Loc(rb, len(body.stmts(rb))), [ret_op])
+                if c.loc in s:
+                    flows = True
+            inserts = [c2 for c2 in ctx.calls(body) if c2.tname in (HBT + "insert_no_grow", HBT + "insert")]
+            if flows and not inserts:
+                out[body.path] = {"body": body, "rem": c, "yield": y}
+        return out
+    return ctx.memo("takers", build)
+
+
+def loop_bound(ctx, body, head, blocks):
+    """Constant trip count of a natural loop: `for _ in a..b` (Range::next) or a counter `c = c0; while c < N { …; c += 1 }`.
+    Returns dict(trip, exh=(from_bb, to_bb) the exit taken when the bound is reached, kind) or None."""
+    # Range<usize>::next
+    for x in blocks:
+        t = body.term(x)
+        if t["k"] != "call":
+            continue
+        c = ctx.call_at(body, x)
+        if c.tname == "core::ops::Range::next" and c.target is not None:
+            sw = body.term(c.target)
+            exh = None
+            if sw["k"] == "switch":
+                for v, tb in sw["targets"]:
+                    if v == 0:
+                        exh = (c.target, tb)
+            if exh is not None and exh[1] not in blocks:
+                return {"trip": _range_trip(ctx, body, c), "exh": exh, "kind": "range", "next": c}
+    # counted loop
+    for x in blocks:
+        t = body.term(x)
+        if t["k"] != "switch":
+            continue
+        exits = [s_ for s_ in body.succs(x) if s_ not in blocks]
+        inside = [s_ for s_ in body.succs(x) if s_ in blocks]
+        if len(exits) != 1 or len(inside) != 1:
+            continue
+        d = body.source_def(t["discr"])
+        if d is None or d[1] != "assign" or d[2]["rv"]["k"] != "binop" or d[2]["rv"]["op"] not in ("Lt", "Le", "Ne", "Gt", "Ge"):
+            continue
+        rv = d[2]["rv"]
+        a, b_ = rv["a"], rv["b"]
+        op = rv["op"]
+        if body.op_const(b_) is None and body.op_const(a) is not None:
+            a, b_ = b_, a
+            op = {"Lt": "Gt", "Gt": "Lt", "Le": "Ge", "Ge": "Le", "Ne": "Ne"}[op]
+        N_ = body.op_const(b_)
+        if N_ is None or a["k"] not in ("copy", "move") or a["place"]["proj"]:
+            continue
+        if op not in ("Lt", "Le", "Ne"):
+            continue
+        # which edge continues: the comparison true -> stays inside
+        true_t = t["otherwise"]
+        if true_t not in blocks:
+            continue
+        # counter local: follow copies back to a multi-def local
+        cl = a["place"]["local"]
+        hops = 0
+        while hops < 4:
+            dd = body.unique_def(cl)
+            if dd is not None and dd[1] == "assign" and dd[2]["rv"]["k"] == "use" and dd[2]["rv"]["op"]["k"] in ("copy", "move") and not dd[2]["rv"]["op"]["place"]["proj"]:
+                cl = dd[2]["rv"]["op"]["place"]["local"]
+                hops += 1
+                continue
+            break
+        defs = [z for z in body.defs().get(cl, []) if z[1] == "assign" and not body.is_cleanup(z[0].bb)]
+        outside = [z for z in defs if z[0].bb not in blocks]
+        inner = [z for z in defs if z[0].bb in blocks]
+        if len(outside) != 1 or len(inner) != 1 or len(defs) != len(body.defs().get(cl, [])):
+            continue
+        c0 = body.op_const(outside[0][2]["rv"]["op"]) if outside[0][2]["rv"]["k"] == "use" else None
+        if c0 is None:
+            continue
+        # the inner definition is counter + 1
+        inc = inner[0][2]["rv"]
+        ok_inc = False
+        if inc["k"] == "use" and inc["op"]["k"] in ("copy", "move"):
+            sd = body.unique_def(inc["op"]["place"]["local"])
+            if sd is not None and sd[1] == "assign" and sd[2]["rv"]["k"] == "binop" and sd[2]["rv"]["op"].startswith("Add"):
+                x1, x2 = sd[2]["rv"]["a"], sd[2]["rv"]["b"]
+                for u, w in ((x1, x2), (x2, x1)):
+                    if body.op_const(w) == 1 and u["k"] in ("copy", "move") and u["place"]["local"] == cl:
+                        ok_inc = True
+        elif inc["k"] == "binop" and inc["op"] == "Add":
+            for u, w in ((inc["a"], inc["b"]), (inc["b"], inc["a"])):
+                if body.op_const(w) == 1 and u["k"] in ("copy", "move") and u["place"]["local"] == cl:
+                    ok_inc = True
+        if not ok_inc:
+            continue
+        # every trip around the loop passes the increment
+        inc_bb = inner[0][0].bb
+        seen = set()
+        st = [inside[0]]
+        skipped = False
+        while st:
+            y = st.pop()
+            if y in seen or y == inc_bb or y not in blocks:
+                continue
+            seen.add(y)
+            for s_ in body.succs(y):
+                if s_ == head:
+                    skipped = True
+                st.append(s_)
+        if skipped:
+            continue
+        trip = {"Lt": N_ - c0, "Ne": N_ - c0, "Le": N_ - c0 + 1}[op]
+        return {"trip": max(0, trip), "exh": (x, exits[0]), "kind": "counter", "next": None}
+    return None
+
+
+def movers(ctx):
+    """bodies that move elements OLD -> MAIN: {path: dict(rem=Call, ins=Call, bounded=dict or None, body)}.
+    `rem` is the event that takes an element out of the old table: a hashbrown remove on OLD, or a call of a taker helper."""
+    def build():
+        out = {}
+        tk = takers(ctx)
+        for body in ctx.facts.bodies.values():
+            rems = []
+            for c in ctx.calls(body):
+                if body.is_cleanup(c.loc.bb):
+                    continue
+                if c.tname == HBT + "remove" and ctx.role(body, c.arg_path(0)) == OLD and body.path not in tk:
+                    rems.append(c)
+                else:
+                    lc = c.local_callee()
+                    if lc is not None and lc.path in tk:
+                        rems.append(c)
+            if not rems:
+                continue
+            for c in rems:
+                ins = None
+                for c2 in ctx.calls(body):
+                    if c2.tname in (HBT + "insert_no_grow", HBT + "insert") and ctx.role(body, c2.arg_path(0)) == MAIN and len(c2.args) > 2:
+                        s, _ = body.slice_back(c2.loc, [c2.args[2]])
+                        if c.loc in s:
+                            ins = c2
+                if ins is None:
+                    continue
+                info = {"rem": c, "ins": ins, "bounded": None, "body": body}
+                for head, blocks in body.loops():
+                    if c.loc.bb in blocks:
+                        lb = loop_bound(ctx, body, head, blocks)
+                        if lb is not None:
+                            info["bounded"] = dict(lb, head=head, blocks=blocks)
+                        else:
+                            info["loop"] = {"head": head, "blocks": blocks}
+                out[body.path] = info
         return out
     return ctx.memo("movers", build)
 
@@ -466,7 +661,7 @@ def rule_t_grow(ctx):
             R.viol("%s:call:%s" % (b.path, lc.path), c.where(), "%s requires LEFT = None (%s) and is called from a context where the state is unknown"
                    % (lc.path, req[lc.path]))
     R.notes.append("functions with entry requirement LEFT=None: %s" % sorted(req))
-    R.floor(1 + 4, "replacer sites + requirement call sites")
+    R.floor(2, "replacer sites + requirement call sites")
     return R
 
 
@@ -564,6 +759,34 @@ def old_empty_edges(ctx, body):
             c = ctx.call_at(body, d[0].bb)
             if c.tname == HBT + "is_empty" and ctx.role(body, c.arg_path(0)) == OLD:
                 empty_if_true = True
+            elif c.name in (OPT + "is_some_and", OPT + "map_or", OPT + "is_none_or") and c.closure_args():
+                # LEFT.as_ref().is_some_and(|lo| lo.table.len() == 0): true => pending and empty; false => not pending, or not empty ("NE")
+                src_ok = False
+                sd = body.source_def(c.args[0])
+                if sd is not None and sd[1] == "call":
+                    sc = ctx.call_at(body, sd[0].bb)
+                    if sc.name in (OPT + "as_ref", OPT + "as_mut") and sc.arg_path(0) is not None and ctx.roles.is_left_place(sc.arg_path(0)):
+                        src_ok = True
+                elif c.arg_path(0) is not None and ctx.roles.is_left_place(c.arg_path(0)):
+                    src_ok = True
+                default_false = c.name == OPT + "is_some_and" or (c.name == OPT + "map_or" and body.op_const(c.args[1]) == 0)
+                cb = c.closure_args()[0]
+                clo_empty = False
+                for loc2, st2 in cb.all_assigns():
+                    if st2["place"]["local"] == 0 and st2["rv"]["k"] == "binop" and st2["rv"]["op"] == "Eq":
+                        for x, y in ((st2["rv"]["a"], st2["rv"]["b"]), (st2["rv"]["b"], st2["rv"]["a"])):
+                            if cb.op_const(y) == 0:
+                                sd2 = cb.source_def(x)
+                                if sd2 is not None and sd2[1] == "call":
+                                    c3 = ctx.call_at(cb, sd2[0].bb)
+                                    if c3.tname == HBT + "len" and ctx.role(cb, c3.arg_path(0)) == OLD:
+                                        clo_empty = True
+                if src_ok and default_false and clo_empty:
+                    for v, tb in t["targets"]:
+                        if tb != t["otherwise"] and v == 0:
+                            out[(bb, tb)] = "NE"
+                    out[(bb, t["otherwise"])] = True
+                continue
         if empty_if_true is None:
             continue
         for v, tb in t["targets"]:
@@ -590,19 +813,8 @@ def rule_t_mover(ctx):
         nb += 1
         bd = info["bounded"]
         blocks = bd["blocks"]
-        nxt = bd["next"]
-        # exits of the loop
-        # exhaustion exit: from the switch on Range::next's discriminant, the 0 (None) edge
-        exh = None
-        sw_bb = nxt.target
-        t = body.term(sw_bb)
-        if t["k"] == "switch":
-            for v, tb in t["targets"]:
-                if v == 0:
-                    exh = (sw_bb, tb)
-        if exh is None:
-            R.viol("%s:bounded:shape" % path, nxt.where(), "cannot find the exhaustion exit of the bounded loop")
-            continue
+        exh = bd["exh"]
+        loop_where = body.where(Loc(exh[0], len(body.stmts(exh[0]))))
         cleared = _left_cleared_blocks(ctx, body)
         # (a) every other exit reaches return only through LEFT := None
         for x in blocks:
@@ -620,19 +832,20 @@ def rule_t_mover(ctx):
         ee = old_empty_edges(ctx, body)
         ok_edges = set()
         for (x, s_), is_empty in ee.items():
-            if is_empty:
+            if is_empty is True:
                 if _must_pass(body, [s_], cleared, set()) is None:
                     # the empty edge frees: then the complementary (non-empty) edge is a legitimate way on
                     for (x2, s2), e2 in ee.items():
-                        if x2 == x and not e2:
+                        if x2 == x and e2 is not True:
                             ok_edges.add((x2, s2))
         w = _must_pass(body, [exh[1]], cleared, ok_edges)
         if w is not None:
             R.viol("%s:bounded:post-loop-empty-check" % path, body.where(Loc(exh[0], 0)),
                    "after its loop the bounded mover can return (path %s) without testing whether the old table is now empty and freeing it" % w)
-        # (c) one move per iteration: every path from the loop's Some edge back to the header passes the removal and the insertion
-        some_targets = [tb for v, tb in t["targets"] if v == 1]
+        # (c) one move per iteration: every trip around the loop passes the removal and the insertion
         head = bd["head"]
+        some_targets = [s_ for s_ in body.succs(exh[0]) if s_ in blocks] if bd["kind"] == "counter" else \
+            [tb for v, tb in body.term(exh[0])["targets"] if v == 1]
         for st_bb in some_targets:
             for must in (info["rem"].loc.bb, info["ins"].loc.bb):
                 # path from st_bb to head avoiding `must`, staying inside loop
@@ -652,17 +865,21 @@ def rule_t_mover(ctx):
                     R.viol("%s:bounded:iteration-without-move" % path, body.where(Loc(st_bb, 0)),
                            "an iteration of the bounded mover can complete without %s" % ("removing from the old table" if must == info["rem"].loc.bb else "inserting into the main table"))
         # exactly one REM/insert per iteration: no second removal site in the loop
-        rems = [c for c in ctx.calls(body) if c.loc.bb in blocks and c.tname in (HBT + "remove", HBT + "erase") and ctx.role(body, c.arg_path(0)) == OLD]
+        tk = takers(ctx)
+        rems = [c for c in ctx.calls(body) if c.loc.bb in blocks and ((c.tname in (HBT + "remove", HBT + "erase") and ctx.role(body, c.arg_path(0)) == OLD)
+                                                                     or (c.local_callee() is not None and c.local_callee().path in tk))]
         if len(rems) != 1:
             R.viol("%s:bounded:moves-per-iteration" % path, body.where(info["rem"].loc), "%d removals from the old table per iteration" % len(rems))
         # loop must not be nested in another loop
         outer = [h for h, bl in body.loops() if h != head and blocks <= bl]
         if outer:
-            R.viol("%s:bounded:nested" % path, nxt.where(), "the bounded loop is nested inside another loop")
+            R.viol("%s:bounded:nested" % path, loop_where, "the bounded loop is nested inside another loop")
         Rc = ctx.facts.consts.get("%s::raw::R" % ctx.facts.crate, {}).get("val")
         R.inst(fn=path, kind="bounded mover", trip=bd["trip"], R=Rc, exhaustion_exit="bb%d->bb%d" % exh)
         if bd["trip"] is None:
-            R.viol("%s:bounded:trip" % path, nxt.where(), "loop bound is not a compile-time constant range")
+            R.viol("%s:bounded:trip" % path, loop_where, "loop bound is not a compile-time constant")
+        elif Rc is not None and bd["trip"] != Rc:
+            R.viol("%s:bounded:trip-vs-R" % path, loop_where, "the bounded mover runs %s iterations but the size formulas assume batches of R = %s" % (bd["trip"], Rc))
     if nb != 1:
         R.anchor("bounded-mover", "expected exactly one bounded mover, found %d" % nb)
     if len(mv) - nb < 1:
@@ -675,13 +892,15 @@ def rule_t_free(ctx):
     for body, c, role, recv in hb_calls(ctx):
         if c.tname != HBT + "remove" or role != OLD or body.path in movers(ctx):
             continue
+        if cursor_yield_of(ctx, body, c.args[1]) is not None:
+            continue     # a mover step (the cursor's own element): freeing is T-mover's business
         cleared = _left_cleared_blocks(ctx, body)
         ee = old_empty_edges(ctx, body)
         ok_edges = set()
         for (x, s_), is_empty in ee.items():
-            if is_empty and _must_pass(body, [s_], cleared, set()) is None:
+            if is_empty is True and _must_pass(body, [s_], cleared, set()) is None:
                 for (x2, s2), e2 in ee.items():
-                    if x2 == x and not e2:
+                    if x2 == x and e2 is not True:
                         ok_edges.add((x2, s2))
         w = _must_pass(body, [c.target], cleared, ok_edges)
         R.inst(fn=body.path, site=c.where(), verdict="frees when empty" if w is None else "VIOLATION")
